@@ -170,3 +170,59 @@ def matches_known(witness, known):
         if k.get('status') == 'known' and witness.get('cls') in k.get('witness_classes', []):
             return True
     return False
+
+
+def run_shards(name, shards, define, evaluator, timeout=900):
+    """shards: list of (header_text, [item strings]).  Each shard is one coqc run ending in `Eval vm_compute in answer`.
+    Returns (list of raw answer strings per shard (None on error), list of (shard, error text))."""
+    d = os.path.join(BUILD, 'cases', name)
+    os.makedirs(d, exist_ok=True)
+    for f in os.listdir(d):
+        try:
+            os.unlink(os.path.join(d, f))
+        except OSError:
+            pass
+    paths = []
+    for si, (header, items) in enumerate(shards):
+        path = os.path.join(d, f'{name}_{si}.v')
+        with open(path, 'w') as f:
+            f.write(header + '\n')
+            f.write(define + ' [\n' + ';\n'.join(items) + '\n].\n')
+            f.write(f'Definition answer := {evaluator}.\n')
+            f.write('Eval vm_compute in answer.\n')
+        paths.append(path)
+    answers = [None] * len(paths)
+    errors = []
+    pending = list(enumerate(paths))
+    running = []
+    while pending or running:
+        while pending and len(running) < NPROC:
+            si, path = pending.pop(0)
+            p = subprocess.Popen(['timeout', str(timeout), 'coqc', '-Q', COQ, 'GP', '-o', path + 'o', path],
+                                 stdout=subprocess.PIPE, stderr=subprocess.STDOUT, text=True, cwd=d)
+            running.append((si, p))
+        si, p = running.pop(0)
+        outp, _ = p.communicate()
+        if p.returncode != 0:
+            errors.append((si, outp[-2000:]))
+            continue
+        m = re.search(r'=\s*(.*?)\s*:\s*list', outp, re.S)
+        if not m:
+            errors.append((si, 'unparsable: ' + outp[-500:]))
+            continue
+        answers[si] = m.group(1)
+    for f in os.listdir(d):
+        if not f.endswith('.v'):
+            try:
+                os.unlink(os.path.join(d, f))
+            except OSError:
+                pass
+    return answers, errors
+
+
+def parse_triples(ans):
+    """'[(3, (2, 0)); ...]' or '[]'/'nil' -> list of (i, code, instant)"""
+    out = []
+    for m in re.finditer(r'\((\d+)(?:%N)?,\s*\((\d+)(?:%N)?,\s*(\d+)(?:%N)?\)\)', ans or ''):
+        out.append((int(m.group(1)), int(m.group(2)), int(m.group(3))))
+    return out
